@@ -530,6 +530,13 @@ pub fn run_c19(out: &mut Out, tier: &str, _seed: u64) {
                     let result_returning = matches!(o.op.as_str(), "create" | "mlock" | "munlock" | "mprotect_readonly" | "mprotect_readwrite" | "mprotect_noaccess");
                     if o.result == "panic" && result_returning { out.hit("protected.mlock-refused.panics.other-errno", format!("errno {}: {} (step {}) panicked, length {}", e, o.op, idx, len), rp.clone()); }
                 }
+                { let mut live_clone_pages_locked = 0usize;
+                  for (idx, o) in run.obs.iter().enumerate() {
+                    if o.result != "ok" { break; }
+                    if o.op == "clone" && o.locked { live_clone_pages_locked += pages_spanned(o.len); }
+                    if o.len > 0 { let want = if o.locked { pages_spanned(o.len) } else { 0 } + live_clone_pages_locked;
+                        if o.vmlck_pages != want { out.hit("protected.mlock-refused.reported-as-success", format!("errno {}: {} (step {}) returned Ok with the type state {} but {} pages are locked (refusing from call {}), length {}", e, o.op, idx, if o.locked { "Locked" } else { "Unlocked" }, o.vmlck_pages, k, len), rp.clone()); break; } }
+                  } }
                 if let Some(v) = run.final_vmlck { if v != 0 { out.hit("protected.mlock-refused.residual-locked-pages", format!("errno {}: {} pages locked after cleanup", e, v), rp.clone()); } }
             }
         } }
